@@ -6,6 +6,7 @@ import (
 	"math/big"
 	"sort"
 	"strings"
+	"sync"
 )
 
 const modulePrefix = "github.com/jsightapi/jsight-schema-go-library"
@@ -29,9 +30,10 @@ type FieldInfo struct {
 
 // Sorts maps Go types to SMT sorts and accumulates declarations.
 type Sorts struct {
-	decls     []string          // in dependency order
+	tagMu     sync.Mutex
+	decls     []string               // in dependency order
 	structs   map[string]*StructInfo // by sort name
-	byType    map[string]Sort   // types.TypeString → sort
+	byType    map[string]Sort        // types.TypeString → sort
 	boxes     map[Sort]bool
 	tags      map[string]int // type string → interface tag
 	tagNames  []string
@@ -294,6 +296,8 @@ func IVal(v Term) Term {
 
 // Tag returns the interface type tag of a concrete Go type.
 func (s *Sorts) Tag(t types.Type) int {
+	s.tagMu.Lock()
+	defer s.tagMu.Unlock()
 	key := typeName(t)
 	if n, ok := s.tags[key]; ok {
 		return n
